@@ -486,6 +486,8 @@ def snapshot() -> Dict[str, Any]:
     s["intern_ok"] = _intern_ok(PSLiteralTable.dict, "lit") and _intern_ok(PSKeywordTable.dict, "kw")
     s["strict"] = settings.STRICT
     s["metrics"] = _p(FONT_METRICS)
+    # digest per entry, the one the model's regenerated table (Gen/ProcGlobals.FONT_METRICS) carries
+    s["metrics_entries"] = [(k, len(v[1]), int(round(sum(v[1].values())))) for k, v in FONT_METRICS.items()]
     s["colorspaces"] = _h([(k, v.name, v.ncomponents) for k, v in PREDEFINED_COLORSPACE.items()])
     s["glyphs"] = len(glyphname2unicode)
     return s
@@ -510,10 +512,48 @@ def cmap_exists(name: str) -> bool:
     return os.path.exists(os.path.join(d, name + ".pickle.gz"))
 
 
+EXPECTED_METRICS: Optional[List[Tuple[int, int]]] = None      # from the model (regenerated from fontmetrics.py)
+
+
+def fetch_expected_metrics(ctx: C.Ctx) -> None:
+    """the digest of every FONT_METRICS entry as the model's regenerated initial globals have it"""
+    global EXPECTED_METRICS
+    EXPECTED_METRICS = None
+    if ctx.driver is None:
+        return
+    from pdfminer.fontmetrics import FONT_METRICS
+    n = len(FONT_METRICS)
+    rep = ctx.driver.ask(["ginit 0 0"] + ["gmetrics %d" % i for i in range(n + 1)])
+    if rep is None or len(rep) != n + 2 or rep[-1] != "metrics none":
+        ctx.disagree("c12.globals.metrics-table", {"entries": n}, n, rep[-1] if rep else None)
+        return
+    try:
+        EXPECTED_METRICS = [tuple(int(x) for x in r.split()[1].split(",")) for r in rep[1:-1]]     # type: ignore[misc]
+    except Exception:  # noqa: BLE001
+        ctx.disagree("c12.globals.metrics-table", {"entries": n}, "metrics n,sum", rep[1:3])
+
+
+def metrics_vs_initial(after: Dict[str, Any]) -> Optional[Tuple[str, Any, Any]]:
+    """C12_globals_unchanged on the implementation: after every step every FONT_METRICS entry still has the
+    digest of the regenerated initial table"""
+    if EXPECTED_METRICS is None:
+        return None
+    got = after["metrics_entries"]
+    if [(n, w) for _k, n, w in got] != list(EXPECTED_METRICS):
+        bad = [(k, (n, w), EXPECTED_METRICS[i] if i < len(EXPECTED_METRICS) else None)
+               for i, (k, n, w) in enumerate(got) if i >= len(EXPECTED_METRICS) or (n, w) != EXPECTED_METRICS[i]]
+        return ("FONT_METRICS entry differs from the initial table (number / sum of widths): "
+                + ", ".join(b[0] for b in bad[:4]), [b[2] for b in bad[:4]], [b[1] for b in bad[:4]])
+    return None
+
+
 def allowed_growth(doc: Optional[P.Doc], before: Dict[str, Any], after: Dict[str, Any],
                    extra_names: Tuple[str, ...] = ()) -> Optional[Tuple[str, Any, Any]]:
     """tables_inv on the implementation: what may change between two snapshots taken around one
     operation on `doc` (None: no document involved)."""
+    mv = metrics_vs_initial(after)
+    if mv is not None:
+        return mv
     for k in ("enc", "strict", "metrics", "colorspaces", "glyphs"):
         if before[k] != after[k]:
             return ("shared table changed: " + k, before[k], after[k])
@@ -1047,6 +1087,9 @@ def run_history(ctx: C.Ctx, seed: str, docs: List[P.Doc], base, ops: List[List[A
     return ex
 
 
+POOL_LOG: Dict[str, List[List[Any]]] = {}      # pool seed -> operations of the histories already run in this process
+
+
 def report_failure(ctx: C.Ctx, seed: str, size: int, docs, base, ops, ex: Exec) -> None:
     assert ex.failure is not None
     idx, what, exp, got, tags = ex.failure
@@ -1057,12 +1100,24 @@ def report_failure(ctx: C.Ctx, seed: str, size: int, docs, base, ops, ex: Exec) 
         e2.run(sub + [last])
         return e2.failure is not None and e2.failure[0] == len(sub) and e2.failure[1] == what
     pre = list(ops[:idx])
+    # a process-wide table that no longer has its initial value stays changed for the rest of THIS process: every
+    # re-run here starts from the leaked state, so shortening the history would only seem to work — keep it whole
+    snap = safe_snapshot()
+    leaked = snap is not None and metrics_vs_initial(snap) is not None
     # keep open ops of handles used later: ddmin works on whole list, handle ops of missing handles are no-ops
-    small = C.ddmin(pre, still, max_tests=25) if pre and still([]) is False else []
-    e3 = Exec(docs, base)
-    e3.run(small + [last])
-    if e3.failure is None or e3.failure[1] != what:
-        small = pre
+    if leaked and "FONT_METRICS entry differs" in what:
+        small = []          # the step that changed the table does so by itself: it is the first one after which it differs
+    elif leaked:
+        # the change may stem from an earlier history of this pool in this process: the replay runs them all
+        small = list(POOL_LOG.get(seed, [])) + pre
+        tags = dict(tags, not_minimised="process-wide FONT_METRICS already differs from its initial value")
+    else:
+        small = C.ddmin(pre, still, max_tests=25) if pre and still([]) is False else []
+    if not leaked:
+        e3 = Exec(docs, base)
+        e3.run(small + [last])
+        if e3.failure is None or e3.failure[1] != what:
+            small = pre
     used = sorted({op[1] for op in small + [last] if op[0] in ("text", "pages", "tofp", "single")} |
                   {op[3] for op in small + [last] if op[0] == "open"})
     tags = dict(tags, history_len=len(small))
@@ -1149,6 +1204,7 @@ def run_pool(ctx: C.Ctx, seed: str, size: int, nhist: int, hist_len: int) -> Non
         ex = run_history(ctx, seed, docs, base, ops)
         if ex is not None and ex.failure is not None:
             report_failure(ctx, seed, size, docs, base, ops, ex)
+        POOL_LOG.setdefault(seed, []).extend(ops)
         model_check(ctx, seed, docs, ops, ex)
 
 
@@ -1334,6 +1390,8 @@ def run_corpus(ctx: C.Ctx) -> None:
 
 def replay(ctx: C.Ctx, doc, from_corpus: bool = False) -> None:
     warm_imports()
+    if EXPECTED_METRICS is None:
+        fetch_expected_metrics(ctx)
     inp = doc.get("input", {})
     if "objcache" in inp:
         from harness.props import c12_objcache as OC
@@ -1389,6 +1447,7 @@ def run(ctx: C.Ctx) -> None:
         # the failing-input search (boost 4) is cut off after 45 s so that even a run with a broken tie
         # stays around 90 s on an idle machine
         ctx.deadline = min(ctx.deadline, time.time() + 45.0)
+    fetch_expected_metrics(ctx)
     run_corpus(ctx)
     # explicit process-wide state + per-page interpreter state (Model/ProcGlobals.lean): once in a process that
     # has seen nothing yet, once more after all the document histories below
